@@ -1,3 +1,129 @@
 import Driver.Common
-/-! Driver for property C14 (stub: the model for this property is not built yet). -/
-def main : IO Unit := Driver.run (fun (s : Unit) _ => (s, "unimplemented")) ()
+import TxdbusModel.Bus.Route
+/-!
+Driver for property C14: the routing model of the built-in bus, one event per line.
+
+Tokens: `~` = None, `-` = the empty string, anything else = the string itself (the harness only
+uses names without white space).
+
+  reset [orig]                         -> ok           (orig: the model of the code before F21/F22)
+  connect                              -> ok <id>
+  msg <i> <type 1-4> <serial> <flags> <path> <iface> <member> <error_name> <reply_serial> <dest>
+      <sender> <body> OP               -> OUT
+        OP = always | addmatch <iface> <member> <path> <destination> | exec <k> EFF*k
+  disc <i> <k> EFF*k                   -> OUT
+        EFF = own <name> <j> | unown <name> | sig <j> <member> <body> | bcast <member> <body>
+
+  OUT = named=<i>:<name>|~ lose=<0|1> n=<k> ; <to> <payload> ; ...
+        payload = F type serial flags path iface member error_name reply_serial dest sender body
+                | H reply_serial name | R reply_serial dest | S path iface member dest body
+-/
+open Txdbus.BusRoute
+
+namespace Driver.C14
+
+def optName (t : String) : Option Name :=
+  if t == "~" then none else if t == "-" then some [] else some t.toList
+
+def name! (t : String) : Name := if t == "-" then [] else t.toList
+
+def optNat? (t : String) : Option (Option Nat) :=
+  if t == "~" then some none else t.toNat?.map some
+
+def showName (n : Name) : String := if n.isEmpty then "-" else String.ofList n
+def showOpt : Option Name → String
+  | none => "~"
+  | some n => showName n
+def showOptNat : Option Nat → String
+  | none => "~"
+  | some n => toString n
+
+def mtypeOf? : String → Option MType
+  | "1" => some .call | "2" => some .ret | "3" => some .err | "4" => some .sig | _ => none
+def mtypeNum : MType → String
+  | .call => "1" | .ret => "2" | .err => "3" | .sig => "4"
+
+def parseEffects : Nat → List String → Option (List Effect × List String)
+  | 0, ts => some ([], ts)
+  | k + 1, "own" :: n :: j :: ts => do
+      let j ← j.toNat?
+      let (es, r) ← parseEffects k ts
+      pure (.setOwner (name! n) j :: es, r)
+  | k + 1, "unown" :: n :: ts => do
+      let (es, r) ← parseEffects k ts
+      pure (.unsetOwner (name! n) :: es, r)
+  | k + 1, "sig" :: j :: mem :: body :: ts => do
+      let j ← j.toNat?
+      let (es, r) ← parseEffects k ts
+      pure (.signalTo j (name! mem) (name! body) :: es, r)
+  | k + 1, "bcast" :: mem :: body :: ts => do
+      let (es, r) ← parseEffects k ts
+      pure (.broadcast (name! mem) (name! body) :: es, r)
+  | _, _ => none
+
+def parseOp : List String → Option (BusOp SimpleRule)
+  | ["always"] => some .always
+  | ["addmatch", i, m, p, d] =>
+      some (.addMatch { iface := optName i, member := optName m, path := optName p, destination := optName d })
+  | "exec" :: k :: ts => do
+      let k ← k.toNat?
+      let (es, r) ← parseEffects k ts
+      if r.isEmpty then pure (.exec es) else none
+  | _ => none
+
+def parseEvent : List String → Option (Event SimpleRule)
+  | ["connect"] => some .connect
+  | "msg" :: i :: ty :: serial :: flags :: path :: iface :: member :: err :: rs :: dest :: sender :: body :: op => do
+      let i ← i.toNat?
+      let ty ← mtypeOf? ty
+      let serial ← serial.toNat?
+      let flags ← flags.toNat?
+      let rs ← optNat? rs
+      let op ← parseOp op
+      pure (.msg i { mtype := ty, serial := serial, noReply := flags % 2 == 1, noAutoStart := flags / 2 % 2 == 1,
+                     path := optName path, iface := optName iface, member := optName member,
+                     errorName := optName err, replySerial := rs, dest := optName dest,
+                     sender := optName sender, body := name! body } op)
+  | "disc" :: i :: k :: ts => do
+      let i ← i.toNat?
+      let k ← k.toNat?
+      let (es, r) ← parseEffects k ts
+      if r.isEmpty then pure (.disconnect i es) else none
+  | _ => none
+
+def showPayload : Payload → String
+  | .fwd _ m =>
+      let flags := (if m.noReply then 1 else 0) + (if m.noAutoStart then 2 else 0)
+      s!"F {mtypeNum m.mtype} {m.serial} {flags} {showOpt m.path} {showOpt m.iface} {showOpt m.member} {showOpt m.errorName} {showOptNat m.replySerial} {showOpt m.dest} {showOpt m.sender} {showName m.body}"
+  | .helloReply serial nm => s!"H {serial} {showName nm}"
+  | .busReply serial d => s!"R {serial} {showName d}"
+  | .busSignal m => s!"S {showOpt m.path} {showOpt m.iface} {showOpt m.member} {showOpt m.dest} {showName m.body}"
+
+def showOut (o : Out) : String :=
+  let named := match o.named with
+    | some (i, n) => s!"{i}:{showName n}"
+    | none => "~"
+  let ds := o.deliveries.map (fun d => s!" ; {d.to} {showPayload d.what}")
+  s!"named={named} lose={if o.lose then 1 else 0} n={o.deliveries.length}" ++ String.join ds
+
+structure St where
+  cfg : Cfg SimpleRule := repaired
+  s : State SimpleRule := {}
+
+def stepLine (st : St) (line : String) : St × String :=
+  match Driver.words line with
+  | ["reset"] => ({}, "ok")
+  | ["reset", "orig"] => ({ cfg := original }, "ok")
+  | ws =>
+    match parseEvent ws with
+    | none => (st, "error:parse")
+    | some .connect =>
+        let (s', _) := step st.cfg st.s .connect
+        ({ st with s := s' }, s!"ok {st.s.conns.length}")
+    | some e =>
+        let (s', o) := step st.cfg st.s e
+        ({ st with s := s' }, showOut o)
+
+end Driver.C14
+
+def main : IO Unit := Driver.run Driver.C14.stepLine {}
